@@ -354,10 +354,17 @@ package dmap
 //@   loop 0 decreases i + 1
 //@   modifies owner_lookups, every(dm.engine.la)
 
+// The loop over the backup owners runs to its end: no owner is skipped once enough answers are in.
 //@ func (dm *DMap) lookupOnReplicas(hkey uint64, key string) []*version
 //@   props C05 C06 C09
-//@   trusted
+//@   flag wired 3
+//@   flag skip nil requires
+//@   flag frame_assumed
+//@   requires #parts: dm != nil && dm.s != nil && dm.s.parts() && dm.s.backup.count > 0
 //@   ensures #shape: fresh(result) && off(result) == 0 && forall k int :: 0 <= k && k < len(result) ==> result[k] != nil && result[k].host != nil
+//@   ensures #every_backup_owner_is_asked [C06] internal: rangeindex + 1 >= len(backups)
+//@   loop 0 invariant #collected: -1 <= rangeindex && rangeindex < len(backups) && fresh(versions) && off(versions) == 0 &&
+//@                forall k int :: 0 <= k && k < len(versions) ==> versions[k] != nil && versions[k].host != nil
 //@   modifies nothing
 
 // Read repair pushes the winner to the holders of other versions: it must be given the newest copy and ALL gathered
